@@ -366,9 +366,19 @@ def verify_function(eng):
             raise OutOfSubset(fn, f"contract parameter `{nm}` is not a parameter of the current function (signature changed)")
         val = make_param(eng, st, nm, spec)
         st.env[nm] = val
+    for (cls_, attr_), fty in getattr(c, "heap_fields", {}).items():
+        from .types import THeap, TObj as _TObj
+
+        st.env[f"$heap.{cls_}.{attr_}"] = eng.fresh(st, THeap(_TObj(cls_), fty), f"heap.{cls_}.{attr_}")
     for nm, val in list(st.env.items()):
         st.env["old_" + nm] = val.copy() if isinstance(val, MObj) else val
     st.env.update(c.spec_env)
+    for (cls_, attr_), fty in getattr(c, "heap_fields", {}).items():
+        # clause access to the ENTRY value of the attribute: entry_<attr>(obj); `obj.<attr>` in a clause reads the state the clause is evaluated in
+        def _entry(eng_, args, kw, n, st_, _h=st.env[f"$heap.{cls_}.{attr_}"], _t=fty):
+            return V(_t, z3.Select(_h.t, args[0].t))
+
+        st.env[f"entry_{attr_}"] = _entry
     for nm, text in c.lets.items():
         eng.spec_mode = True
         try:
